@@ -6,6 +6,7 @@ triaged as a genuine defect of the tree (see DESIGN.md)."""
 import sys, os, json, re, collections
 V = os.path.dirname(os.path.dirname(os.path.abspath(__file__)))
 prop = sys.argv[1]
+append = sys.argv[2] if len(sys.argv) > 2 else None      # mkfindings.py C01 <tag>: keep the existing classes and add the dumped cases as <prop>-<tag>NNN
 classes = collections.OrderedDict()
 for l in open(os.path.join(V, 'replays', prop, 'all.jsonl')):
     d = json.loads(l); det = d['detail']; cid = d['case']
@@ -22,10 +23,17 @@ for l in open(os.path.join(V, 'replays', prop, 'all.jsonl')):
 out = collections.OrderedDict()
 for i, (key, c) in enumerate(sorted(classes.items())):
     field, sig = key.split('|')
-    fid = '%s-%03d' % (prop, i)
+    fid = '%s-%03d' % (prop, i) if not append else '%s-%s%03d' % (prop, append, i)
     if prop == 'C01':
         c['what'] = 'corrupting %s: `e2fsck -fy` claims success but the following `e2fsck -fn` still reports %s' % (field, sig)
     out[fid] = c
 os.makedirs(os.path.join(V, 'known_findings'), exist_ok=True)
+if append:
+    old = json.load(open(os.path.join(V, 'known_findings', prop + '.cases.json')), object_pairs_hook=collections.OrderedDict)
+    have = set(c for f in old.values() for c in f['cases'])
+    for fid, c in out.items():
+        c['cases'] = [x for x in c['cases'] if x not in have]
+        if c['cases']: old[fid] = c
+    out = old
 json.dump(out, open(os.path.join(V, 'known_findings', prop + '.cases.json'), 'w'), indent=0)
 print(prop, 'classes:', len(out), 'cases:', sum(len(c['cases']) for c in out.values()))
